@@ -184,20 +184,44 @@ func (bs *builderShape) equalReuses() []equalReuse {
 		}
 	}
 	eachInstr(bs.f, func(ins ssa.Instruction) {
-		mu, ok := ins.(*ssa.MapUpdate)
-		if !ok {
-			return
-		}
-		if _, isLocal := mu.Map.(*ssa.MakeMap); !isLocal {
-			return
-		}
-		for _, eq := range bs.eqIdx {
-			if bs.nonNeg(mu.Block(), eq) && bs.derivesFromIndex(mu.Value, eq, 0) {
-				out = append(out, equalReuse{idx: eq, at: mu, viaMap: mu.Map})
+		switch mu := ins.(type) {
+		case *ssa.MapUpdate:
+			if _, isLocal := stripConv(mu.Map).(*ssa.MakeMap); !isLocal {
+				return
+			}
+			for _, eq := range bs.eqIdx {
+				if bs.nonNeg(mu.Block(), eq) && bs.derivesFromIndex(mu.Value, eq, 0) {
+					out = append(out, equalReuse{idx: eq, at: mu, viaMap: stripConv(mu.Map)})
+				}
+			}
+		case *ssa.Store:
+			// parked in a local slice indexed by list position (nil = not paired)
+			ia, ok := mu.Addr.(*ssa.IndexAddr)
+			if !ok {
+				return
+			}
+			ms, isLocal := resolve(ia.X).(*ssa.MakeSlice)
+			if !isLocal {
+				return
+			}
+			for _, eq := range bs.eqIdx {
+				if bs.nonNeg(mu.Block(), eq) && bs.derivesFromIndex(mu.Val, eq, 0) {
+					out = append(out, equalReuse{idx: eq, at: mu, viaMap: ms})
+				}
 			}
 		}
 	})
 	return out
+}
+
+// parkedLoad: v is an element read back from the local slice m (m[i]).
+func parkedLoad(v ssa.Value, m ssa.Value) bool {
+	u, ok := stripConv(v).(*ssa.UnOp)
+	if !ok || u.Op != token.MUL {
+		return false
+	}
+	ia, ok := u.X.(*ssa.IndexAddr)
+	return ok && resolve(ia.X) == m
 }
 
 // donorOf analyses the statistic argument of a generator call: every alternative of the value (phi cases) is either nil
@@ -255,12 +279,25 @@ func (bs *builderShape) removedFor(idx ssa.Value) bool {
 
 // foundInMap: block b is dominated by a successful lookup in local map m.
 func foundInMap(b *ssa.BasicBlock, m ssa.Value) bool {
+	if _, isSlice := m.(*ssa.MakeSlice); isSlice {
+		// local slice: an element read back from it is known non-nil
+		for _, ft := range condFacts(b) {
+			bo, ok := ft.Cond.(*ssa.BinOp)
+			if !ok || !((bo.Op == token.NEQ && ft.Truth) || (bo.Op == token.EQL && !ft.Truth)) {
+				continue
+			}
+			if (isNilConst(bo.Y) && parkedLoad(bo.X, m)) || (isNilConst(bo.X) && parkedLoad(bo.Y, m)) {
+				return true
+			}
+		}
+		return false
+	}
 	for _, ft := range condFacts(b) {
 		ex, ok := ft.Cond.(*ssa.Extract)
 		if !ok || ex.Index != 1 || !ft.Truth {
 			continue
 		}
-		if lk, ok := ex.Tuple.(*ssa.Lookup); ok && lk.X == m {
+		if lk, ok := ex.Tuple.(*ssa.Lookup); ok && stripConv(lk.X) == m {
 			return true
 		}
 	}
@@ -294,9 +331,12 @@ func init() {
 					for _, ap := range bs.result {
 						e := appendedElem(ap)
 						if ex, ok := e.(*ssa.Extract); ok && ex.Index == 0 {
-							if lk, ok := ex.Tuple.(*ssa.Lookup); ok && lk.X == er.viaMap && foundInMap(ap.Block(), er.viaMap) {
+							if lk, ok := ex.Tuple.(*ssa.Lookup); ok && stripConv(lk.X) == er.viaMap && foundInMap(ap.Block(), er.viaMap) {
 								okTaken = true
 							}
+						}
+						if parkedLoad(e, er.viaMap) && foundInMap(ap.Block(), er.viaMap) {
+							okTaken = true
 						}
 					}
 				}
@@ -307,7 +347,11 @@ func init() {
 					if er.viaMap == nil {
 						continue
 					}
-					mu := er.at.(*ssa.MapUpdate)
+					mu, isMap := er.at.(*ssa.MapUpdate)
+					if !isMap {
+						c.Hold(fnKey(f)+" / pairing-keyed-by-position", er.at.Pos(), "unchanged rules are paired with their old objects in a slice indexed by list position")
+						continue
+					}
 					_, isInt := mu.Key.Type().Underlying().(*types.Basic)
 					c.Check(isInt && isIntegerT(mu.Key.Type()), fnKey(f)+" / pairing-keyed-by-position", mu.Pos(), "unchanged rules are paired with their old objects in a map keyed by list position (key type %s)", mu.Key.Type())
 				}
